@@ -72,7 +72,7 @@ Proof.
   rewrite Vx.
   assert (EW' : ev_wf T e') by exact EW.
   assert (PK' : parents_known T e') by exact PK.
-  pose proof (accepted_wf_new ep lam vals J K st es T Dr T e' C PK' NLt CR EW') as WN.
+  pose proof (accepted_wf_new ep lam vals st es T Dr T e' C PK' NLt CR EW') as WN.
   destruct (add_preserves nv (l_idx st) (fe e') (co_vinv _ _ _ _ _ _ _ _ C) WN) as [s' [Hadd [I' Ev']]].
   rewrite Hadd.
   replace (a_epoch x =? l_epoch st) with true by (symmetry; rewrite (co_epoch _ _ _ _ _ _ _ _ C); apply N.eqb_refl).
